@@ -280,6 +280,35 @@ fn fam_core(o: &mut Out, quick: bool, rng: &mut Rng) {
             o.run(c);
         }
     }
+    // accepted steps not longer than the handler's / the segment lookup's 1e-12 at the start of a run, with dense output
+    for m in METHODS {
+        for (x0, xend, fs) in [(0.0, 1e-10, 1e-13), (0.0, -1e-10, -1e-13), (0.0, 1.0, 1e-14)] {
+            let mut c = base(m, Problem::new("decay", 1.0), x0, xend);
+            c.first_step = Some(fs);
+            c.dense = true;
+            if xend.abs() > 0.5 { c.max_steps = Some(2); }
+            c.tags = vec!["tiny_first_step+dense".into()];
+            o.run(c);
+        }
+    }
+    // a large time offset (Julian-date like): steps of 1e-7 are many ulps of x0 but far below 1e-12 |x0|
+    for m in METHODS {
+        for dir in [1.0, -1.0] {
+            let x0 = 2_460_000.5;
+            let mut c = base(m, Problem::new("lin2", 0.0), x0, x0 + dir * 1e-5);
+            c.first_step = Some(dir * 1e-7);
+            c.max_step = Some(2e-7);
+            c.jac = "user".into();
+            c.tags = vec!["large_offset+first_step".into()];
+            o.run(c.clone());
+            let mut c2 = c.clone();
+            c2.first_step = None;
+            if m == "RK4" { c2.first_step = Some(dir * 2e-7); }
+            c2.dense = true;
+            c2.tags = vec!["large_offset+max_step".into()];
+            o.run(c2);
+        }
+    }
     // degenerate front-end cases
     for m in METHODS {
         let mut c = base(m, Problem::new("decay", 1.0), 2.0, 2.0); c.dense = true; c.tags = vec!["zero_interval".into()]; o.run(c);
@@ -381,6 +410,29 @@ fn fam_adversarial(o: &mut Out, quick: bool, _rng: &mut Rng) {
                 c.budget = Some(300_000);
                 c.tags = vec![tag.to_string(), if ms.is_some() { "finite_budget".into() } else { "default_budget".into() }];
                 o.run(c);
+            }
+        }
+    }
+    // the same pathologies on the negative axis (guards that compare with |x|), in both directions, and a non-finite
+    // region that begins shortly before xend (the step that runs into it is the one cut to land on xend)
+    for m in METHODS {
+        for (p, x0, xend, tag) in [(Problem::new("nan_after", -1.5), -3.0, -1.0, "nan_after_negative_axis"),
+                                   (Problem::new("inf_after", -1.5), -3.0, -1.0, "inf_after_negative_axis"),
+                                   (Problem::new("blow2", 0.0), -3.0, 0.0, "blowup_y2_negative_axis"),
+                                   (Problem::new("nan_after", 1.9), 0.0, 2.0, "nan_shortly_before_xend"),
+                                   (Problem::new("inf_after", 1.93), 0.0, 2.0, "inf_shortly_before_xend"),
+                                   (Problem::new("nan_after", -1.1), -3.0, -1.0, "nan_shortly_before_xend_negative_axis")] {
+            let mut c = base(m, p, x0, xend);
+            c.budget = Some(300_000);
+            if m == "RK4" { c.first_step = Some((xend - x0) / 64.0); }
+            c.tags = vec![tag.to_string(), "default_budget".into()];
+            o.run(c.clone());
+            if m != "RK4" {
+                let mut c2 = c.clone();
+                c2.rtol = vec![1e-6];
+                c2.atol = vec![1e-9];
+                c2.tags = vec![tag.to_string(), "tight".into()];
+                o.run(c2);
             }
         }
     }
@@ -555,6 +607,21 @@ fn fam_lowlevel(o: &mut Out, quick: bool, rng: &mut Rng) {
                     o.run(c);
                 }
             }
+            // ModifiedSolution (state unchanged) at the initial callback of a run started with first_step: a no-op
+            if *m != "RK4" {
+                let mut c = base(m, Problem::new("sho", 0.0), *x0, *xend);
+                c.api = "low".into();
+                c.rtol = vec![1e-6];
+                c.atol = vec![1e-9];
+                c.first_step = Some((xend - x0) / 64.0);
+                c.tags = vec!["plain+first_step".into()];
+                let pl = o.run(c.clone());
+                let mut cm = c.clone();
+                cm.script = vec![Script { k: 0, action: "modify_same".into() }];
+                cm.tags = vec!["modify_same@0+first_step".into()];
+                let r = o.run(cm);
+                o.pair("C19", "equal_cb", &pl, &r, "ModifiedSolution with an unchanged state at the initial callback is a no-op (first_step given)");
+            }
             // doubling at the initial callback
             for p in [Problem::new("lin2", 0.0), Problem::new("decay", 1.0)] {
                 let mut c = base(m, p, *x0, *xend);
@@ -628,6 +695,14 @@ fn fam_observer(o: &mut Out, quick: bool, rng: &mut Rng) {
             let b = o.run(v);
             o.pair("C12", "observer", &a, &b, "t_eval/dense/events change only what is reported");
         }
+        // an empty list of requested times is still only an output option
+        {
+            let mut v = c.clone();
+            v.t_eval = Some(vec![]);
+            v.tags = vec!["observer_teval_empty".into()];
+            let b = o.run(v);
+            o.pair("C12", "observer", &a, &b, "an empty t_eval changes only what is reported");
+        }
         // requested times that end well before xend: the integration still runs to xend, unperturbed
         for dense in [false, true] {
             let mut v = c.clone();
@@ -641,6 +716,79 @@ fn fam_observer(o: &mut Out, quick: bool, rng: &mut Rng) {
         v.tags = vec!["repeat".into()];
         let b = o.run(v);
         o.pair("C12", "equal", &a, &b, "repeating the call gives bit-identical results");
+    }
+}
+
+/// C12 on larger systems (work vectors of 4..12 components), with the caller holding earlier results alive: output options
+/// and repetition must not reach the integration through anything, incl. buffer placement
+fn fam_observer_wide(o: &mut Out, quick: bool) {
+    let probs = vec![Problem::new("cascade4", 2.0), { let mut p = Problem::new("lin2", 0.0); p.copies = 3; p }, { let mut p = Problem::new("vdp", 2.0); p.copies = 5; p },
+                     { let mut p = Problem::new("lin3", 0.0); p.copies = 4; p }];
+    for m in ["BDF", "RADAU", "DOP853", "RK23"] {
+        for (pi, p) in probs.iter().enumerate() {
+            if quick && pi >= 3 { continue; }
+            let mut c = base(m, p.clone(), 0.0, 2.0);
+            c.rtol = vec![1e-5];
+            c.atol = vec![1e-8];
+            c.jac = "user".into();
+            c.tags = vec!["wide_plain".into()];
+            let a = o.run(c.clone());
+            for r in 0..(if quick { 4 } else { 12 }) {
+                let mut v = c.clone();
+                match r % 4 {
+                    0 => { v.t_eval = Some(linspace(0.0, 2.0, 3 + 2 * r)); v.tags = vec!["wide_teval".into()]; }
+                    1 => { v.dense = true; v.tags = vec!["wide_dense".into()]; }
+                    2 => { v.t_eval = Some(linspace(0.0, 1.5, 2 + 3 * r)); v.dense = true; v.tags = vec!["wide_teval+dense".into()]; }
+                    _ => { v.tags = vec!["wide_repeat".into()]; }
+                }
+                let b = o.run(v);
+                o.pair("C12", "observer", &a, &b, "output options / repetition on a larger system");
+            }
+        }
+    }
+}
+
+/// C12 on runs too long to trace line by line (more than 100000 accepted steps): the output options change only what is
+/// reported.  Both runs are made here on an uninstrumented problem and compared; one `fact` line carries the verdict.
+fn fam_observer_long(o: &mut Out, quick: bool) {
+    use ivp::prelude::*;
+    struct P(Problem);
+    impl IVP for P {
+        fn ode(&self, t: f64, y: &[f64], d: &mut [f64]) { self.0.f(t, y, d) }
+        fn n_events(&self) -> usize { 0 }
+    }
+    let nsteps = 100_500usize;
+    for (mi, m) in ["RK4", "RK23"].iter().enumerate() {
+        if quick && mi > 0 { continue; }
+        for (x0, xend) in [(0.0, 1.0), (1.0, 0.0)] {
+            if quick && x0 != 0.0 { continue; }
+            let prob = P(Problem::new("decay", 1.0));
+            let mk = |dense: bool, te: Option<Vec<f64>>| {
+                let mut opt = Options::builder().method(ivp_verif_harness::recorder::method_of(m)).dense_output(dense).build();
+                let hs = (xend - x0) / nsteps as f64;
+                if *m == "RK4" { opt.first_step = Some(hs); } else { opt.max_step = Some(hs.abs()); }
+                opt.t_eval = te;
+                solve_ivp(&prob, x0, xend, &[1.0], opt)
+            };
+            let plain = mk(false, None);
+            for (tag, dense, te) in [("long_run_dense", true, None), ("long_run_t_eval", false, Some(linspace(x0, xend, 5)))] {
+                let v = mk(dense, te);
+                let (ok, note) = match (&plain, &v) {
+                    (Ok(a), Ok(b)) => {
+                        let same = a.status == b.status && a.nfev == b.nfev && a.nstep == b.nstep && a.naccpt == b.naccpt && a.nrejct == b.nrejct
+                            && a.t.last().map(|t| t.to_bits()) == b.t.last().map(|t| t.to_bits())
+                            && a.y.last().map(|y| y.iter().map(|v| v.to_bits()).collect::<Vec<_>>()) == b.y.last().map(|y| y.iter().map(|v| v.to_bits()).collect::<Vec<_>>());
+                        (same, format!("plain: {:?} naccpt={} nfev={}; with option: {:?} naccpt={} nfev={}", a.status, a.naccpt, a.nfev, b.status, b.naccpt, b.nfev))
+                    }
+                    (Err(_), Err(_)) => (true, "both runs rejected".to_string()),
+                    _ => (false, "one of the two runs returned an error".to_string()),
+                };
+                o.next_id += 1;
+                let id = o.next_id;
+                o.emit(&json!({"e": "fact", "id": id, "prop": "C12", "clause": "long_run_observer", "ok": ok, "method": m, "api": "solve_ivp",
+                               "problem": "decay", "tags": [tag], "note": note}));
+            }
+        }
     }
 }
 
@@ -856,6 +1004,26 @@ fn fam_symmetry(o: &mut Out, quick: bool, rng: &mut Rng) {
             }
         }
     }
+    // Radau (no hinit): copies of a stiff nonlinear system with an oversized first step: the refined error estimate of a
+    // rejected first step, and the retries that follow, must not depend on the number of copies
+    for (p, xend, fs) in [(Problem::new("vdp", 50.0), 3.0, 0.5), (Problem::new("vdp", 5.0), 4.0, 1.0), (Problem::new("kjump3", 1.0), 2.0, 0.7), (Problem::new("robertson", 0.0), 40.0, 5.0)] {
+        let mut c = base("RADAU", p.clone(), 0.0, xend);
+        c.rtol = vec![1e-3];
+        c.atol = vec![1e-6];
+        c.jac = "user".into();
+        c.first_step = Some(fs);
+        c.tags = vec!["reference_radau_rejections".into()];
+        let a = o.run(c.clone());
+        for mcopies in [2usize, 4] {
+            let mut v = c.clone();
+            v.problem.copies = mcopies;
+            v.y0 = (0..mcopies).flat_map(|_| c.y0.clone()).collect();
+            v.map = format!("copies:{}", mcopies);
+            v.tags = vec![format!("radau_rejections+copies{}", mcopies)];
+            let b = o.run(v);
+            o.pair("C13", "equal", &a, &b, "independent identical copies, Radau with rejected first attempts");
+        }
+    }
     // a long, stability-limited explicit run (stiffness detection is reached) and its reflection
     for m in ["DOP853", "DOPRI5"] {
         let mut c = base(m, Problem::new("relax", 2.0e4), 0.0, if quick { 1.5 } else { 5.0 });
@@ -1043,12 +1211,13 @@ fn fam_storage_mass(o: &mut Out, quick: bool) {
         let n = p.dim();
         for (mass, stores) in [("lowbi", vec!["full".to_string(), "banded:1,0".into(), "banded:1,1".into(), format!("banded:{},1", n)]),
                                ("upbi", vec!["full".to_string(), "banded:0,1".into(), "banded:1,1".into(), format!("banded:0,{}", n)]),
-                               ("tri", vec!["full".to_string(), "banded:1,1".into(), "banded:2,1".into(), "banded:1,2".into()])] {
+                               ("tri", vec!["full".to_string(), "banded:1,1".into(), "banded:2,1".into(), "banded:1,2".into()]),
+                               ("trineg", vec!["full".to_string(), "banded:1,1".into(), "banded:1,2".into()])] {
             for (x0, xend) in [(0.0, 1.5), (1.0, 0.25)] {
                 let mut c = base("RADAU", p.clone(), x0, xend);
                 c.jac = "user".into();
-                c.rtol = vec![1e-5];
-                c.atol = vec![1e-8];
+                c.rtol = vec![1e-6];
+                c.atol = vec![1e-9];
                 c.mass = mass.into();
                 c.mass_storage = stores[0].clone();
                 c.tags = vec![format!("mass={}+mass_storage={}", mass, stores[0])];
@@ -1066,6 +1235,30 @@ fn fam_storage_mass(o: &mut Out, quick: bool) {
                 v.tags = vec![format!("mass={}+jac_banded", mass)];
                 let b = o.run(v);
                 o.pair("C15", "equal", &a, &b, "Jacobian storage Full vs Banded with a non-identity mass");
+            }
+        }
+    }
+    // a Jacobian band narrower than the mass pattern: decoupled equations (diagonal Jacobian, Banded{0,0}) under a tridiagonal mass
+    for mass in ["tri", "trineg"] {
+        let mut p = Problem::new("decay", 2.0);
+        p.copies = 3;
+        let mut c = base("RADAU", p, 0.0, 1.0);
+        c.jac = "user".into();
+        c.rtol = vec![1e-6];
+        c.atol = vec![1e-9];
+        c.mass = mass.into();
+        c.mass_storage = "full".into();
+        c.tags = vec![format!("mass={}+jac_full", mass)];
+        let a = o.run(c.clone());
+        for (js, ms) in [("banded:0,0", "full"), ("banded:0,0", "banded:1,1"), ("full", "banded:1,1")] {
+            for api in ["solve_ivp", "low"] {
+                let mut v = c.clone();
+                v.api = api.into();
+                v.jac_storage = js.into();
+                v.mass_storage = ms.into();
+                v.tags = vec![format!("mass={}+jac={}+mass_storage={}", mass, js, ms)];
+                let b = o.run(v);
+                if api == "solve_ivp" { o.pair("C15", "equal", &a, &b, "Jacobian band narrower than the mass pattern"); }
             }
         }
     }
@@ -1229,6 +1422,20 @@ fn fam_events_small(o: &mut Out) {
     }
 }
 
+/// C09: event values that decay to the subnormal range keep their strict sign: no crossing, no event
+fn fam_events_tiny(o: &mut Out) {
+    for m in ["RK4", "RK23", "DOPRI5", "BDF"] {
+        let mut c = base(m, Problem::new("decay", 60.0), 0.0, 10.0);
+        c.rtol = vec![1e-6];
+        c.atol = vec![0.0];
+        c.dense = m == "RK4";
+        if m == "RK4" { c.first_step = Some(0.01); } else { c.max_step = Some(0.05); }
+        c.events = vec![EventSpec { kind: "y0-a".into(), a: 0.0, dir: "All".into(), term: 0 }];
+        c.tags = vec!["events_tiny_values".into()];
+        o.run(c);
+    }
+}
+
 /// C08: direction filters given as integer codes (any positive code = rising, any negative = falling, 0 = both)
 fn fam_events_codes(o: &mut Out) {
     for m in METHODS {
@@ -1279,13 +1486,13 @@ fn main() {
             "core" => fam_core(&mut o, quick, &mut rng),
             "adversarial" => fam_adversarial(&mut o, quick, &mut rng),
             "lowlevel" => fam_lowlevel(&mut o, quick, &mut rng),
-            "observer" => fam_observer(&mut o, quick, &mut rng),
+            "observer" => { fam_observer(&mut o, quick, &mut rng); fam_observer_wide(&mut o, quick); fam_observer_long(&mut o, quick); }
             "budget" => { fam_budget(&mut o, quick, &mut rng); fam_budget_early_rejections(&mut o, quick); }
             "terminal" => { fam_terminal(&mut o, quick, &mut rng); fam_terminal_last(&mut o, quick); fam_terminal_sweep(&mut o, quick); }
             "symmetry" => fam_symmetry(&mut o, quick, &mut rng),
             "storage" => { fam_storage(&mut o, quick, &mut rng); fam_storage_mass(&mut o, quick); }
             "teval" => { fam_teval(&mut o, quick, &mut rng); fam_teval_zero(&mut o); }
-            "events" => { fam_events(&mut o, quick, &mut rng); fam_events_small(&mut o); fam_events_codes(&mut o); }
+            "events" => { fam_events(&mut o, quick, &mut rng); fam_events_small(&mut o); fam_events_codes(&mut o); fam_events_tiny(&mut o); }
             _ => { eprintln!("unknown family {}", fam); std::process::exit(2); }
         }
     }
